@@ -22,7 +22,7 @@ Proof. exact (active_is_stack qk cfg st ops). Qed.
     body is balanced (nested blocks left normally or through an exception, enable/disable pairs,
     probes) and in which nothing fails, and EVERY probe [q]:
         answer after the block = answer before the block.
-    It is proved under the guard [q_rebuild_on_hit = false] (F23) for conversions, root units and
+    It is proved under the guard [q_rebuild_on_hit = false] (F110) for conversions, root units and
     parsing, and additionally [q_base_cache_ctx_blind = false] (F7) for get_base_units; both
     guards are necessary ([C12_exit_restores_refuted], [C12_exit_restores_base_refuted]). *)
 Theorem C12_exit_restores qk cfg os base ops cs kw body closer q :
@@ -62,7 +62,7 @@ Theorem C12_exit_restores_base_refuted :
     answer_of faithful cfg (run faithful cfg st blk).2 q ≠ answer_of faithful cfg st.2 q.
 Proof. exact exit_restores_base_refuted. Qed.
 
-(** pint as it is: a unit defined inside an overlay is lost when an inner block is left (F23) *)
+(** pint as it is: a unit defined inside an overlay is lost when an inner block is left (F110) *)
 Theorem C12_exit_restores_refuted :
   ∃ cfg st0 ops blk q,
     let qk := QK false false false true in
